@@ -48,6 +48,7 @@ class C02(Check):
     PID = 'C02'
     RULE = ('feature cover (every past operator x boundary bounds x duplicated stateful text x n in {1,2,5,9}) then seeded random past formulas '
             '(30% with a forced duplicate stateful sub-term); every update() output compared with the model and with rho at that sample; '
+            '15% of the cases with bounded operators written with explicit units / another default unit / period unit; plus specifications with 1-4 named sub-specifications (nested, repeated); '
             'non-trivial = formula with >= 3 nodes containing a stateful operator; distinct by (formula, data)')
 
     def gen_cases(self, rng, tier):
@@ -67,15 +68,46 @@ class C02(Check):
         cases = []
         for (f, n, nv) in items:
             nv = need_vars(f, nv)
-            cases.append({'f': f, 'n': n, 'nv': nv, 'cols': fml.gen_trace(rng, nv, n), 'times': list(range(n))})
+            c = {'f': f, 'n': n, 'nv': nv, 'cols': fml.gen_trace(rng, nv, n), 'times': list(range(n))}
+            if rng.random() < 0.15:
+                from harness.c08 import spelling
+                sp = spelling(rng, f)
+                if sp:
+                    c['spell'] = sp
+            cases.append(c)
+        # specifications with named sub-specifications (a sub-formula is then reachable from several roots)
+        from harness.modular import gen_modular
+        for c in gen_modular(rng, tier, 120, 1500, gen_kwargs={'future': False}, base=False):
+            c['fkey'] = fml.to_sx(c['f'])
+            cases.append(c)
         return cases
+
+    def load_case(self, c):
+        from harness import shrink
+        c = Check.load_case(self, c)
+        if 'subs' in c:
+            c['main'] = shrink.detuple(c['main'])
+            c['subs'] = [[nm, shrink.detuple(b), shrink.detuple(s)] for nm, b, s in c['subs']]
+        return c
+
+    def normalize(self, c):
+        # a shrunk formula no longer matches its decomposition into sub-specifications: continue with the plain formula
+        if 'subs' in c and fml.to_sx(c['f']) != c.get('fkey'):
+            c = {k: v for k, v in c.items() if k not in ('subs', 'main', 'consts', 'style', 'fkey')}
+        if 'spell' in c and fml.to_sx(c['f']) != c.get('spell', {}).get('fkey', fml.to_sx(c['f'])):
+            c = {k: v for k, v in c.items() if k != 'spell'}
+        return c
 
     def model_lines(self, c):
         return ['(on std (%s) %d %s)' % (fml.to_sx(c['f']), c['n'], fml.trace_sx(c['cols']))]
 
     def impl_cases(self, c):
-        return [online_case(c['f'], c['cols'], c['times'], c['nv']),
-                offline_case(c['f'], c['cols'], c['times'], c['nv'])]
+        kw = dict(c.get('spell', {}))
+        if 'subs' in c:
+            from harness.modular import modular_spec
+            kw.update(modular_spec(c))
+        return [online_case(c['f'], c['cols'], c['times'], c['nv'], **kw),
+                offline_case(c['f'], c['cols'], c['times'], c['nv'], **kw)]
 
     def nontrivial(self, c):
         return fml.size(c['f']) >= 3 and bool(fml.ops(c['f']) & {'prev', 'sprev', 'once', 'hist', 'since', 'oncet', 'histt', 'sincet', 'rise', 'fall'})
